@@ -179,6 +179,21 @@ def catalogue():
         ops = []
         if feature:
             ops.append(("transform", lambda obj, d, layout: ((lambda X=lay(d["X"], layout): (lambda: obj.transform(X), {"X": X}))())))
+
+        # a warm-started continuation by one more selection is a call like any other: it must not touch the caller's arrays
+        def warm(obj, d, layout):
+            X, y = lay(d["X"], layout), lay(d["y"], layout)
+            had_y = hasattr(obj, "y_selected_") or needs_y
+
+            def fn():
+                obj.n_to_select = int(obj.n_selected_) + 1
+                if had_y:
+                    obj.fit(X, y, warm_start=True)
+                else:
+                    obj.fit(X, warm_start=True)
+                return np.asarray(obj.selected_idx_).copy()
+            return fn, ({"X": X, "y": y} if had_y else {"X": X})
+        ops.append(("warm_fit", warm))
         return (factory, "required" if needs_y else "optional", fit, ops)
     cat["feature.FPS"] = sel(F.FPS, False, True)
     cat["feature.CUR"] = sel(F.CUR, False, True)
